@@ -17,7 +17,7 @@ Proof. exact Fmod.fmod_period. Qed.
 
 Theorem wrap360_range_and_congruence : forall d,
   wrap360 d = fmod (d + 180) 360 - 180 /\ -180 <= wrap360 d < 180 /\ cong360 (wrap360 d) d.
-Proof. intros d. exact (conj (wrap360_alt d) (conj (wrap360_range d) (wrap360_cong_self d))). Qed.
+Proof. exact wrap360_range_and_congruence. Qed.
 
 (* ---- direction steps ---- *)
 (* the grid covers the circle: it is congruent (mod 360, element by element) to a reference grid
@@ -33,7 +33,7 @@ Proof. exact dstep_sum_360. Qed.
 Theorem dstep_uniform : forall t0 dl th,
   ugrid t0 dl th -> -180 <= dl < 180 ->
   dstep th = repeat dl (length th) /\ sumR (dstep th) = 360.
-Proof. intros t0 dl th U H. exact (conj (dstep_uniform t0 dl th U H) (dstep_uniform_sum t0 dl th U H)). Qed.
+Proof. exact dstep_uniform_both. Qed.
 
 Theorem uniform_is_ugrid : forall t0 N, (3 <= N)%nat ->
   let dl := 360 / INR N in
